@@ -364,10 +364,13 @@ class SerializationMethodVisitor(
         self, tp: AnyType, fields: Sequence[ObjectField]
     ) -> SerializationMethod:
         self._has_skipped_field = any(map(self._skip_field, fields))
+        # skipped fields included: they must not be taken for additional properties
+        self._declared_names = {f.name for f in fields}
         return super()._object(tp, fields)
 
     def object(self, tp: AnyType, fields: Sequence[ObjectField]) -> SerializationMethod:
         cls = get_origin_or_type(tp)
+        declared_names = getattr(self, "_declared_names", set()) | {f.name for f in fields}
         fields_to_order = []
         exclude_unset = self.exclude_unset and support_fields_set(cls)
         typed_dict = is_typed_dict(cls)
@@ -440,9 +443,7 @@ class SerializationMethodVisitor(
         )
         method: SerializationMethod
         if is_typed_dict(cls) and self.additional_properties:
-            method = ObjectAdditionalMethod(
-                base_fields, {f.name for f in fields}, self.any()
-            )
+            method = ObjectAdditionalMethod(base_fields, declared_names, self.any())
         elif not all(
             isinstance(f, IdentityField) and f.alias == f.name for f in base_fields
         ):
